@@ -37,7 +37,7 @@ OBJTYPES = ['body', 'geom', 'site', 'joint', 'camera']
 
 # Semantic hints (NOT schema knowledge): values that make the reader/compiler accept an element more often, so that the
 # base document of a violation test is accepted and the injected violation is the only reason for a rejection.
-# They are applied with probability 0.85; the remaining 15% explore the declared type freely.
+# They are applied with probability RECIPE_P; the remaining documents explore the declared type freely.
 RECIPES = {
     'composite': {'type': 'cable', 'count': '3 1 1', 'curve': 's', 'size': '1', 'initial': 'none', 'vertex': None,
                   'quat': '1 0 0 0'},
@@ -65,7 +65,34 @@ RECIPES = {
     'key': {'qpos': None, 'qvel': None, 'act': None, 'mpos': None, 'mquat': None, 'ctrl': None},
     'global': {'offwidth': '64', 'offheight': '64'},
     'quality': {'shadowsize': '16', 'offsamples': '0'},
+    'composite_geom': {'type': 'capsule', 'size': '0.01 0.02'},
+    'config': {'value': '1'},
+    'dcmotor': {'motorconst': '0.05', 'resistance': '1', 'thermal': None, 'lugre': None, 'controller': None,
+                'nominal': None, 'saturation': None, 'inductance': None, 'cogging': None, 'input': None},
+    'damper': {'ctrlrange': '0 1', 'kv': '1'},
+    'adhesion': {'ctrlrange': '0 1', 'gain': '1'},
+    'position': {'dampratio': None, 'kp': '1', 'kv': '0.1'},
+    'intvelocity': {'dampratio': None, 'inheritrange': None, 'kp': '1', 'kv': '0.1'},
+    'orientation': {'dampratio': None, 'kp': '1', 'kv': '0.1'},
+    'pid': {'dampratio': None, 'inheritrange': None, 'slewmax': '1', 'kp': '1', 'kv': '0.1', 'ki': '0.1', 'imax': '1'},
+    'velocity': {'kv': '1'},
+    'material': {'texture': None},
+    'pin': {'id': '0 1', 'range': '0 1', 'grid': '0 0', 'gridrange': '0 0 1 1'},
+    'bone': {'bindpos': '0 0 0', 'bindquat': '1 0 0 0', 'vertid': '0', 'vertweight': '1'},
+    'fixed_joint': {'coef': '1'},
+    'pulley': {'divisor': '2'},
+    'sensor_plugin': {'objtype': None, 'objname': None, 'reftype': None, 'refname': None},
+    'muscle': {'timeconst': '0.01 0.04', 'range': '0.75 1.05', 'force': '1', 'scale': '200', 'lmin': '0.5', 'lmax': '1.6',
+               'vmax': '1.5', 'fpmax': '1.3', 'fvmax': '1.2', 'tausmooth': '0'},
+    'cylinder': {'timeconst': '0.1', 'area': '1', 'diameter': None},
 }
+# every actuator shortcut: one transmission target only (the combinations are semantic errors of the reader)
+for _a in ('general', 'motor', 'position', 'velocity', 'intvelocity', 'damper', 'cylinder', 'muscle', 'dcmotor', 'pid',
+           'actuator_plugin', 'orientation', 'adhesion'):
+  RECIPES.setdefault(_a, {})
+  for _k in ('cranklength', 'slidersite', 'cranksite', 'refsite', 'jointinparent', 'tendon', 'site', 'body'):
+    RECIPES[_a].setdefault(_k, None)
+RECIPE_P = 0.95
 
 
 def load_schema_module(repo):
@@ -480,6 +507,8 @@ class Generator:
     if name == 'curve':
       return rng.choice(['s', 'cos(s)', 'sin(s)', '0', 's cos(s) sin(s)'])
     if name == 'plugin':
+      if ctx.parent is not None and ctx.parent.name == 'composite':
+        return 'mujoco.elasticity.cable'
       return rng.choice(['mujoco.pid', 'mujoco.elasticity.cable', 'no.such.plugin'])
     if name in ('body', 'node') and ctx.name == 'flex':
       pool = doc.ids.get('body', []) if doc is not None else []
@@ -509,6 +538,12 @@ class Generator:
     for a in c.attrs:
       if a.facets.get('required') and a.name not in names:
         errs.append('required_missing:' + a.name)
+    for n, v in node.attrs:
+      a = c.attr.get(n)
+      if a is not None:
+        e = self.value_error(a, v)
+        if e:
+          errs.append('%s:%s' % (e, n))
     present = set(names)
     for kind, bundles in c.constraints:
       anyb = [any(n in present for n in b) for b in bundles]
@@ -540,6 +575,46 @@ class Generator:
         errs.append('missing_required_child:' + sub.tag)
     return errs
 
+  _FLOAT = re.compile(r'^[+-]?(\d+\.?\d*|\.\d+)([eE][+-]?\d+)?$')
+  _INT = re.compile(r'^[+-]?\d+$')
+
+  def value_error(self, a, v):
+    """Type/arity/facet check of one attribute value against its declaration ('' = conforming)."""
+    t = a.type
+    if t == 'enum':
+      return '' if v in self.schema.enums[a.target].keywords() else 'bad_enum'
+    if t == 'flags':
+      kws = self.schema.enums[a.target].keywords()
+      toks = v.split()
+      return '' if toks and all(x in kws for x in toks) else 'bad_enum'
+    if t == 'bool':
+      return '' if v in ('true', 'false') else 'bad_bool'
+    if t in ('double', 'float', 'int'):
+      toks = v.split()
+      rx = self._INT if t == 'int' else self._FLOAT
+      if not all(rx.match(x) for x in toks):
+        return 'non_numeric'
+      hi = self._hi(a)
+      if hi is not None and len(toks) > hi:
+        return 'too_many'
+      if len(toks) < a.arity.lo:
+        return 'too_few'
+      f = a.facets
+      for x in toks:
+        x = float(x)
+        if ('min' in f and x < f['min']) or ('max' in f and x > f['max']) or (f.get('positive') and x <= 0):
+          return 'out_of_range'
+      return ''
+    if t == 'chars':
+      lo = a.arity.lo
+      hi = a.arity.hi if isinstance(a.arity.hi, int) else None
+      if len(v) < lo or (hi is not None and len(v) > hi):
+        return 'bad_chars'
+      pat = a.facets.get('pattern')
+      if pat and not re.fullmatch(pat, v):
+        return 'bad_chars'
+    return ''
+
   def doc_errors(self, doc):
     out = []
     for n in doc.root.walk():
@@ -554,7 +629,7 @@ class Generator:
     """A conforming instance of ctx (attributes only; children are added by later operations)."""
     node = Node(ctx.tag, ctx)
     p = 0.9 if dense else rng.choice([0.1, 0.25, 0.5])
-    recipe = RECIPES.get(ctx.name) if rng.random() < 0.85 else None
+    recipe = RECIPES.get(ctx.name) if rng.random() < RECIPE_P else None
     chosen = []
     for a in ctx.attrs:
       if a.name in forbid:
@@ -565,7 +640,8 @@ class Generator:
         if recipe[a.name] is None:
           take = req
         elif not take and ctx.name in ('composite', 'flexcomp', 'model', 'hfield', 'mesh', 'texture', 'layer', 'user',
-                                       'extension_plugin'):
+                                       'extension_plugin', 'composite_geom', 'config', 'dcmotor', 'bone', 'fixed_joint',
+                                       'pulley', 'damper', 'adhesion'):
           take = True
       if take:
         chosen.append(a)
@@ -581,6 +657,9 @@ class Generator:
       if v is None:
         continue
       node.attrs.append([a.name, v])
+    if ctx.name == 'plugin' and ctx.parent is not None and ctx.parent.name == 'composite' and rng.random() < RECIPE_P:
+      node.remove('instance')
+      node.set('plugin', 'mujoco.elasticity.cable')
     if ctx.name == 'default':
       node.remove('class')
       if ctx.parent is not None and ctx.parent.name == 'default':
@@ -686,8 +765,47 @@ class Generator:
       child = self.make_node(rng, c, doc, dense=dense and last)
       node.add(child)
       doc.register(child)
+      self._hooks(rng, doc, child)
       node = child
     return node
+
+  def _hooks(self, rng, doc, node):
+    """Semantic hints that need more than one element (same status as RECIPES: not schema knowledge)."""
+    if rng.random() >= RECIPE_P:
+      return
+    name = node.ctx.name
+    if name == 'composite':
+      for card, sub in node.ctx.children:
+        if sub.name == 'composite_geom':
+          ch = self.make_node(rng, sub, doc)
+          node.add(ch)
+    elif name == 'flexcomp':
+      n = node.parent
+      while n is not None and n.ctx.name != 'body':
+        n = n.parent
+      if n is not None and not n.has('name'):
+        n.set('name', self.uid('bod'))
+        doc.register(n)
+    elif name == 'attach':
+      # self-attach of a separate top-level body
+      # (the target has to be known to the spec when the attach element is read: own worldbody section, placed first)
+      wbc = self.ctxs.get('mujoco/worldbody')
+      bc = self.ctxs.get('mujoco/worldbody/body')
+      gc = self.ctxs.get('mujoco/worldbody/body/geom')
+      if wbc is not None and bc is not None and gc is not None:
+        wb = Node(wbc.tag, wbc)
+        wb.parent = doc.root
+        doc.root.children.insert(0, wb)
+        tgt = Node(bc.tag, bc)
+        tgt.set('name', self.uid('bod'))
+        wb.add(tgt)
+        doc.register(tgt)
+        ge = Node(gc.tag, gc)
+        ge.set('size', '0.1')
+        tgt.add(ge)
+        for k in ('model', 'frame'):
+          node.remove(k)
+        node.set('body', tgt.get('name'))
 
   def conforming(self, rng, size, weights=None):
     doc = self.new_doc(rng)
